@@ -47,7 +47,13 @@ func main() {
 	if err != nil {
 		panic(err)
 	}
-	_, err = nd.DB.AddSchema(ctx, `type Doc { name: String age: Int score: Float }`)
+	sdl := `type Doc { name: String age: Int score: Float }`
+	if os.Getenv("IDX") == "2" {
+		sdl = `type Doc @index(includes: [{field: "name"}, {field: "age", direction: DESC}]) { name: String age: Int score: Float }`
+	} else if os.Getenv("IDX") != "" {
+		sdl = `type Doc { name: String age: Int @index score: Float }`
+	}
+	_, err = nd.DB.AddSchema(ctx, sdl)
 	if err != nil {
 		panic(err)
 	}
